@@ -17,6 +17,7 @@ use crate::universe::Universe;
 pub const MATED: &str = "7k/6Q1/6K1/8/8/8/8/8 b - - 0 1";
 pub const STALEMATED: &str = "7k/5Q2/6K1/8/8/8/8/8 b - - 0 1";
 pub const SINGLE_MOVE: &str = "7k/8/6K1/8/8/8/8/5Q2 b - - 0 1";
+pub const PERPETUAL: (&str, &str) = ("6k1/5pp1/8/8/7Q/8/1q6/6K1 w - - 0 1", "h4d8 g8h7 d8h4 h7g8 h4d8");
 pub const OTHER_GAME: &str = "r1bqkbnr/pppp1ppp/2n5/4p3/4P3/5N2/PPPP1PPP/RNBQKB1R w KQkq - 2 3";
 
 pub fn family_roots() -> Vec<(&'static str, &'static str)> {
@@ -124,6 +125,9 @@ pub fn family(root_fen: &str) -> Vec<RootSpec> {
         }
     }
     v.push(RootSpec::fen(SINGLE_MOVE));
+    // forced-reply perpetual: after the shuffle the mover has exactly one legal move, and it is the move the root's
+    // repetition filter would drop
+    v.push(RootSpec::with(PERPETUAL.0, PERPETUAL.1));
     v.push(RootSpec::fen(MATED));
     v.push(RootSpec::fen(STALEMATED));
     v.push(RootSpec::fen(OTHER_GAME));
